@@ -8,7 +8,10 @@ Four legs on every generated input (a small C file of #define lines and invocati
   spec     Lean `drv_c09 spec` (Spec/PPSpec.lean, 6.10.3 in the standard's phases)  vs  `gcc -E -P`
 A chibicc/gcc mismatch is a VIOLATION when gcc and the Lean specification agree with each other (two independent
 readings of the standard against chibicc), unless the input lies in the region of known finding C09-placemarker.
-A chibicc run that does not finish in 5 s is a violation (non-termination)."""
+A fifth leg compares chibicc -E with the results PRINTED IN THE STANDARD for the examples of C11 6.10.3.5 (STD_EXAMPLES).
+A chibicc run that does not finish in 5 s is a violation (non-termination).
+Runs in which `#` produces something that is not a valid string literal (a `\` outside a literal in front of the closing
+quote, `str(\)`) are undefined behaviour (6.10.3.2p2) and are counted as skipped_ub, not compared."""
 import os, json, itertools, hashlib
 from concurrent.futures import ThreadPoolExecutor
 from .framework import *
@@ -26,7 +29,8 @@ TRUSTED_BASE = [
     'preprocess.c; ASan/UBSan): the hide set of every output token, names in list order, equals the model\'s on generated definition '
     'sets x invocations (hide sets of intermediate tokens are observed only through what they leave on the output tokens)',
     'translator tools/extract/pp.py (punctuator list, init_macros tables, __COUNTER__ start; pins the shape of subst/expand_macro/is_hash/'
-    'hideset_*/join_tokens/paste/read_macro_arg_one/quote_string and fails loudly when they change)',
+    'hideset_*/join_tokens/paste/read_macro_arg_one/quote_string, the whole copy loop of stringize and which token kinds it escapes, '
+    'and fails loudly when they change)',
     'the specification lean/ChibiVerif/Spec/PPSpec.lean (my reading of C11 6.10.3-6.10.3.4, C2x __VA_OPT__, GNU `, ##`), validated against '
     'gcc 12 `-E -P` at token granularity on the same inputs',
     'the python tokenizer in checklib/C09.py (mirrors tokenize.c for ASCII; a mistake shows up as a tie disagreement)',
@@ -37,9 +41,11 @@ ASSUMPTIONS = [
     'the macro table is a dictionary (C17)',
     'where C11 6.10.3.4p4 leaves nested replacement unspecified, for the GNU `, ## __VA_ARGS__` pre-expansion question, and for '
     '__VA_OPT__ with a variable argument that expands to nothing (not C11; C2x drafts differ), chibicc and gcc are not compared',
+    'when the result of `#` is not a valid string literal (possible only with a `\\` or `"` outside a literal in the argument; '
+    'C11 6.10.3.2p2: undefined behaviour) the run is not compared: the C function re-tokenizes its buffer (diagnostic, or a '
+    'shorter first token), the model returns the buffer; Props C09_stringize_wellformed proves the two agree everywhere else',
 ]
 KNOWN_ID = 'C09-placemarker'
-KNOWN_BS = 'C09-stringize-backslash-outside-literal'
 TIMEOUT = 5
 FUEL = 200000
 
@@ -298,7 +304,7 @@ def parse_driver(line):
     if not w:
         return ('bad',)
     if w[0].startswith('ok'):
-        # model: ok[:p][b] (ghost flags: placemarker region / stringize-backslash region); spec: ok | okx (crossed)
+        # model: ok[:p][b] (ghost flags: placemarker region / a stringized argument with `\\` or `"` outside a literal); spec: ok | okx (crossed)
         return ('ok', dec(w[1:]), w[0][2:])
     if w[0] == 'err':
         return ('err', w[1])
@@ -407,6 +413,9 @@ def hide_problem(c):
     return None
 
 def tie_all(c):
+    if strz_ub(c):
+        # undefined behaviour: only "no crash" is asked of the real code (hangs are judged by the oracle leg)
+        return 'chibicc crashed (no diagnostic, non-zero exit) on an invocation whose `#` result is not a valid string literal' if c['C'][0] == 'crash' else None
     return tie_problem(c) or hide_problem(c)
 
 def flat(res):
@@ -429,18 +438,51 @@ def pm_capable(text):
                 return True
     return False
 
-def bs_capable(c):
-    """the text has a `\\` outside string/character tokens and some macro uses `#` (syntactic over-approximation, used only
-    when the model stops with a diagnostic)"""
-    if c['toks'] is None:
+def str_lit_closed(t):
+    """the spelling is one string literal for string_literal_end: closed by an unescaped `"` at its very end"""
+    m = re.match(r'(u8|u|U|L)?"', t)
+    if not m:
         return False
-    return any(k == 'p' and t == '\\' for k, t, _, _, _ in c['toks']) and re.search(r'#\s*define[^\n]*#', c['text']) is not None
+    try:
+        return _str_end(t, m.end()) == len(t)
+    except LexErr:
+        return False
+
+def str_lit_valid(t):
+    """... and every `\\x` is followed by a hexadecimal digit (read_escaped_char; every other escape is accepted)"""
+    if not str_lit_closed(t):
+        return False
+    m = re.match(r'(u8|u|U|L)?"', t)
+    e = len(t)
+    body, j = t[m.end():e - 1], 0
+    while j < len(body):
+        if body[j] == '\\':
+            if j + 1 < len(body) and body[j + 1] == 'x' and not (j + 2 < len(body) and body[j + 2] in '0123456789abcdefABCDEF'):
+                return False
+            j += 2
+        else:
+            j += 1
+    return True
+
+def strz_ub(c):
+    """C11 6.10.3.2p2: "If the replacement that results is not a valid character string literal, the behavior is undefined."
+    True when the model stringized an argument with a `\\`/`"` outside a literal (ghost flag `b`; by C09_stringize_wellformed
+    nothing else can give an invalid literal) and the model or the specification shows a string token that is not a valid
+    literal.  The C code re-tokenizes the buffer then (diagnostic, or only its first token); the model does not."""
+    M, S = c['M'], c['S']
+    if not (M[0] == 'ok' and 'b' in M[2]):
+        return False
+    if any(k == 's' and not str_lit_valid(t) for k, t, _, _ in M[1]):
+        return True
+    return S[0] == 'ok' and any(k == 's' and not str_lit_valid(t) for k, t, _, _ in S[1])
 
 def oracle_verdict(c):
     """'agree' | 'both-reject' | ('violation', what) | ('known', what) | ('inconclusive', why)"""
     C, G, S, M = c['C'], c['G'], c['S'], c['M']
     if C[0] == 'hang':
         return ('violation', f'chibicc -E did not finish within {TIMEOUT} s (macro expansion must terminate)')
+    if strz_ub(c):
+        return ('skipped_ub', 'the result of # is not a valid string literal (6.10.3.2p2)')
     if G[0] == 'unlexable-output' or C[0] == 'unlexable-output':
         return ('inconclusive', 'output not tokenizable')
     cf = flat(C)
@@ -455,13 +497,9 @@ def oracle_verdict(c):
     if gf is None:
         return ('inconclusive', 'gcc rejects the input, chibicc accepts it (constraint violation diagnosed late or not at all: not C09): ' + G[1])
     in_pm = (M[0] == 'ok' and 'p' in M[2]) or (M[0] == 'err' and M[1] in ('pasteAtStart', 'pasteInvalid') and pm_capable(c['text']))
-    in_bs = (M[0] == 'ok' and 'b' in M[2]) or (M[0] == 'err' and bs_capable(c))
     what = (f"chibicc: {' '.join(cf)[:300] if cf is not None else C[:2]} | gcc -E -P: {' '.join(gf)[:300] if gf is not None else G[:2]}")
     if in_pm:
         return ('known', what, KNOWN_ID)
-    if in_bs and cf is not None and gf is not None and [t.replace('\\\\', '\\') for t in cf] == [t.replace('\\\\', '\\') for t in gf]:
-        # the outputs differ only in doubled backslashes inside string literals
-        return ('known', what, KNOWN_BS)
     if re.search(r',\s*##', c['text']):
         return ('inconclusive', 'GNU `, ## __VA_ARGS__` has no C11 text (gcc keeps the comma for an empty-but-present variable argument and does not pre-expand)')
     sf = flat(S)
@@ -477,6 +515,8 @@ def oracle_verdict(c):
 
 def spec_vs_gcc(c):
     G, S = c['G'], c['S']
+    if strz_ub(c):
+        return None
     if S[0] == 'ok' and ('x' in S[2] or 'v' in S[2]):
         return None
     if re.search(r',\s*##', c['text']):
@@ -841,8 +881,111 @@ BATTERY = [
     'a\n#\nb\n# \nc\n',
 ]
 
+# C11 6.10.3.5: source and the result PRINTED IN THE STANDARD (compared at token granularity with chibicc -E, independent
+# of gcc and of the Lean specification).  EXAMPLE 5 (`t(10,,)` ...) is the known finding C09-placemarker and stays in BATTERY only.
+# The `debug`/`report` definitions are written on one line (no backslash-newline: C18's subject), `#include xstr(..)` as text.
+_EX3_DEFS = ('#define x 3\n#define f(a) f(x * (a))\n#undef x\n#define x 2\n#define g f\n#define z z[0]\n#define h g(~\n#define m(a) a(w)\n'
+             '#define w 0,1\n#define t(a) a\n#define p() int\n#define q(x) x\n#define r(x,y) x ## y\n#define str(x) # x\n')
+_EX4_DEFS = ('#define str(s) # s\n#define xstr(s) str(s)\n#define debug(s, t) printf("x" # s "= %d, x" # t "= %s", x ## s, x ## t)\n'
+             '#define INCFILE(n) vers ## n\n#define glue(a, b) a ## b\n#define xglue(a, b) glue(a, b)\n#define HIGHLOW "hello"\n'
+             '#define LOW LOW ", world"\n')
+_EX7_DEFS = ('#define debug(...) fprintf(stderr, __VA_ARGS__)\n#define showlist(...) puts(#__VA_ARGS__)\n'
+             '#define report(test, ...) ((test)?puts(#test): printf(__VA_ARGS__))\n')
+STD_EXAMPLES = [
+    ('EXAMPLE 3', _EX3_DEFS + 'f(y+1) + f(f(z)) % t(t(g)(0) + t)(1);\ng(x+(3,4)-w) | h 5) & m\n(f)^m(m);\n'
+                  'p() i[q()] = { q(1), r(2,3), r(4,), r(,5), r(,) };\nchar c[2][6] = { str(hello), str() };\n',
+     'f(2 * (y+1)) + f(2 * (f(2 * (z[0])))) % f(2 * (0)) + t(1);\nf(2 * (2+(3,4)-0,1)) | f(2 * (~ 5)) & f(2 * (0,1))^m(0,1);\n'
+     'int i[] = { 1, 23, 4, 5, };\nchar c[2][6] = { "hello", "" };\n'),
+    ('EXAMPLE 4', _EX4_DEFS + 'debug(1, 2);\nfputs(str(strncmp("abc\\0d", "abc", \'\\4\') // this goes away\n == 0) str(: @\\n), s);\n'
+                  'xstr(INCFILE(2).h)\nglue(HIGH, LOW);\nxglue(HIGH, LOW)\n',
+     'printf("x" "1" "= %d, x" "2" "= %s", x1, x2);\nfputs("strncmp(\\"abc\\\\0d\\", \\"abc\\", \'\\\\4\') == 0" ": @\\n", s);\n'
+     '"vers2.h"\n"hello";\n"hello" ", world"\n'),
+    ('EXAMPLE 4: str(: @\\n)', '#define str(s) # s\nstr(: @\\n)\n', '": @\\n"\n'),
+    ('EXAMPLE 4: xstr(INCFILE(2).h)', '#define str(s) # s\n#define xstr(s) str(s)\n#define INCFILE(n) vers ## n\nxstr(INCFILE(2).h)\n', '"vers2.h"\n'),
+    ('EXAMPLE 4: str(strncmp...)', '#define str(s) # s\nstr(strncmp("abc\\0d", "abc", \'\\4\') // this goes away\n == 0)\n',
+     '"strncmp(\\"abc\\\\0d\\", \\"abc\\", \'\\\\4\') == 0"\n'),
+    ('EXAMPLE 7', _EX7_DEFS + 'debug("Flag");\ndebug("X = %d\\n", x);\nshowlist(The first, second, and third items.);\n'
+                  'report(x>y, "x is %d but y is %d", x, y);\n',
+     'fprintf(stderr, "Flag" );\nfprintf(stderr, "X = %d\\n", x );\nputs( "The first, second, and third items." );\n'
+     '((x>y)?puts("x>y"):\n printf("x is %d but y is %d", x, y));\n'),
+]
+
+# ---- the # operator: `\` and `"` inside and outside string literals / character constants of every prefix
+
+STR_PREFIX = ['', 'u8', 'u', 'U', 'L']
+CHR_PREFIX = ['', 'u', 'U', 'L']
+STR_BODY = ['a\\\\b', 'q\\"r', '\\n', '\\\\', '', 'x y', '\\\\\\"', "'", '\\0d']            # a\\b  q\"r  \n  \\  (empty)  x y  \\\"  '  \0d
+CHR_BODY = ['\\\\', '"', "\\'", '\\n', 'a', '\\"', '\\4']                             # \\  "  \'  \n  a  \"  \4
+STRZ_LITS = [p + '"' + b + '"' for p in STR_PREFIX for b in STR_BODY] + [p + "'" + b + "'" for p in CHR_PREFIX for b in CHR_BODY]
+STRZ_PLAIN = ['a', 'n', 'x', 'e1', '0', '12', '0x1f', '+', '-', '@', ':', '.', '%', '#', '\\', '\\', '\\']
+STRZ_DEFS = ('#define str(s) # s\n#define xstr(s) str(s)\n#define showlist(...) puts(#__VA_ARGS__)\n#define two(x,y) <#x|# y|x y>\n'
+             '#define M 9 8\n')
+
+def _strz_arg(rng, allow_comma=False, allow_macro=False):
+    """an argument as text: 1-6 tokens, literals of every prefix and bare `\\` mixed, random white space (none where the two
+    spellings would lex differently when glued)"""
+    n = rng.choice([1, 2, 2, 3, 3, 4, 5, 6])
+    toks = []
+    for _ in range(n):
+        x = rng.random()
+        if x < 0.4:
+            toks.append(rng.choice(STRZ_LITS))
+        elif x < 0.48 and allow_comma:
+            toks.append(',')
+        elif x < 0.53 and allow_macro:
+            toks.append('M')
+        elif x < 0.6:
+            toks += ['(', rng.choice(STRZ_PLAIN + STRZ_LITS), ')']
+        else:
+            toks.append(rng.choice(STRZ_PLAIN))
+    out, prev = '', None
+    for t in toks:
+        if prev is not None and (rng.random() < 0.5 or glue(prev, t)):
+            out += rng.choice([' ', ' ', '  ', '\t', ' /* c */ '])
+        out += t
+        prev = t
+    return out
+
+def gen_strz_grid(rng, thorough):
+    """every literal (5 string prefixes x 9 bodies, 4 character-constant prefixes x 7 bodies) between every combination of
+    {nothing, `\\`, `\\ `, `a`, `a `} before and {nothing, `\\`, ` \\`, `n`, ` n`, `\\n`, ` \\ n`} after it, stringized directly"""
+    pres = ['', '\\', '\\ ', 'a', 'a ']
+    posts = ['', '\\', ' \\', 'n', ' n', '\\n', ' \\ n']
+    out = []
+    for lit in STRZ_LITS:
+        for pre in pres:
+            for post in posts:
+                a, b = pre, post
+                if a and not a.endswith(' ') and glue(a.strip(), lit):
+                    a += ' '
+                if b and not b.startswith(' ') and glue(lit, b.split()[0] if b.split() else b):
+                    b = ' ' + b
+                out.append(f'#define str(s) # s\n[ str({a}{lit}{b}) ]\n')
+    # no literal at all: runs of bare backslashes and plain tokens
+    for arg in ['\\', '\\\\', '\\ \\', '\\n', '\\ n', 'a\\', 'a \\ b', '\\x', '\\x1', '\\ x', '\\0', '\\\\n', '\\\\\\', ': @\\n', '\\(', '(\\)', '\\#', '@\\@']:
+        out.append(f'#define str(s) # s\n[ str({arg}) ]\n')
+        out.append(f'#define str(s) # s\n#define xstr(s) str(s)\n[ xstr({arg}) ]\n')
+    if not thorough:
+        keep = out[-36:]
+        out = rng.sample(out[:-36], 350) + keep
+    return out
+
+def gen_strz_random(rng, n):
+    out = []
+    for _ in range(n):
+        k = rng.random()
+        if k < 0.4:
+            inv = f'str({_strz_arg(rng)})'
+        elif k < 0.6:
+            inv = f'xstr({_strz_arg(rng, allow_macro=True)})'
+        elif k < 0.8:
+            inv = f'showlist({_strz_arg(rng, True, False)})'
+        else:
+            inv = f'two({_strz_arg(rng)},{_strz_arg(rng)})'
+        out.append(STRZ_DEFS + '[ ' + inv + ' ]\n')
+    return out
+
 WITNESS_PM = '#define t(x,y,z) x ## y ## z\nt(,,)\n'
-WITNESS_BS = '#define str(s) # s\nstr(: @\\n)\n'
 
 def corpus_cases():
     d = os.path.join(VERIF, 'corpus', 'C09')
@@ -939,6 +1082,8 @@ def process(ctx, corr, tagged, stop_after=3):
             corr.extra.setdefault('harness_crashes', [])
             if len(corr.extra['harness_crashes']) < 3:
                 corr.extra['harness_crashes'].append({'input': c['text'], 'what': H[1]})
+        if c['M'][0] == 'ok' and 'b' in c['M'][2] and not strz_ub(c):
+            corr.count('stringize_backslash_outside_literal_compared')
         tp = tie_all(c)
         if tp and len(corr.disagreements) < stop_after:
             def bad(t):
@@ -962,6 +1107,8 @@ def process(ctx, corr, tagged, stop_after=3):
             corr.count('oracle_both_reject')
         elif v[0] == 'skipped_ub':
             corr.count('skipped_ub')
+            if v[1].startswith('the result of #'):
+                corr.count('skipped_ub_stringize_result_not_a_literal')
         elif v[0] == 'skipped_latitude_va_opt':
             corr.count('skipped_latitude_va_opt')
         elif v[0] == 'inconclusive':
@@ -987,6 +1134,79 @@ def process(ctx, corr, tagged, stop_after=3):
                                     'expected': ' '.join(c2['G'][1]) if c2['G'][0] == 'ok' else str(c2['G'][:2]),
                                     'got': ' '.join(flat(c2['C'])) if c2['C'][0] == 'ok' else str(c2['C'][:2]), 'tag': tag})
     return cases
+
+def std_examples(ctx, corr):
+    """C11 6.10.3.5 EXAMPLE 3, 4, 7: chibicc -E (and the Lean model, and the Lean specification) against the result printed in
+    the standard, token by token"""
+    for name, src, want in STD_EXAMPLES:
+        c = run_all(ctx, [src])[0]
+        corr.evaluations += 1
+        corr.count('std_example')
+        corr.nontrivial.add(hashlib.sha1(src.encode()).hexdigest())
+        exp = [t[1] for t in tokenize(want, ctx)]
+        got = flat(c['C'])
+        if got != exp:
+            corr.violations.append({'what': f'C11 6.10.3.5 {name}: chibicc -E does not give the result printed in the standard',
+                                    'input': src, 'expected': ' '.join(exp), 'got': ' '.join(got) if got is not None else str(c['C'][:2])})
+        tp = tie_all(c)
+        if tp:
+            corr.disagreements.append({'kind': 'model vs chibicc -E / in-process preprocess2', 'what': tp, 'input': src, 'tag': 'std:' + name,
+                                       'chibicc': str(c['C'])[:400], 'model': str(c['M'])[:400]})
+        if flat(c['S']) != exp:
+            corr.count('spec_vs_standard_mismatch')
+            corr.extra.setdefault('spec_vs_standard_mismatches', []).append(
+                {'example': name, 'spec': ' '.join(flat(c['S']) or [str(c['S'][:2])])[:300], 'standard': ' '.join(exp)[:300]})
+        if c['G'][0] == 'ok' and c['G'][1] != exp:
+            corr.count('gcc_vs_standard_mismatch')
+
+def strz_direct(ctx, corr):
+    """the `#` operator on single arguments through `drv_c09 strz`: Model `stringize` = Spec `stringizeSpec` (C09_stringize_spec,
+    here as a test of the driver), the model's own lexer agrees with this file's `str_lit_closed` about which results are one
+    string literal (the classification behind skipped_ub), literal-safe arguments always are (C09_stringize_wellformed), and for
+    those chibicc -E prints exactly the model's text"""
+    rng = ctx.rng
+    args = [_strz_arg(rng, allow_comma=True) for _ in range(300 if not ctx.thorough else 5000)]
+    args += ['\\', '\\\\', ': @\\n', '\\"a"', '\\ "a"', '\\x', '\\x1', "\\'a'", 'a\\', '"\\\\"\\', 'L"q\\"r" \\ u8"\\\\"']
+    toks = [tokenize(a, ctx) for a in args]
+    out = ctx.driver('strz', ''.join(enc(t) + '\n' for t in toks)).splitlines()
+    texts = []
+    for a, t, l in zip(args, toks, out):
+        corr.evaluations += 1
+        corr.count('strz_direct')
+        w = l.split()
+        if len(w) != 4:
+            corr.disagreements.append({'kind': 'drv_c09 strz', 'what': 'driver could not process the argument: ' + l[:80], 'input': a})
+            return
+        m, sp = bytes.fromhex(w[0]).decode('latin-1'), bytes.fromhex(w[1]).decode('latin-1')
+        one = w[2] == 'ones'
+        if m != sp:
+            corr.disagreements.append({'kind': 'drv_c09 strz', 'what': f'stringize {m} differs from stringizeSpec {sp} (C09_stringize_spec is a theorem: '
+                                       'driver and library are out of step)', 'input': a})
+            return
+        if one != str_lit_closed(m) or (w[3] == '1' and not one):
+            corr.disagreements.append({'kind': 'drv_c09 strz', 'what': f'is {m} one string literal? Lex.lexOne: {w[2]}, literal-safe: {w[3]}, '
+                                       f'checklib: {str_lit_closed(m)}', 'input': a})
+            return
+        corr.count('strz_direct_literal_safe' if w[3] == '1' else ('strz_direct_unsafe_valid' if str_lit_valid(m) else 'strz_direct_unsafe_ub'))
+        if ',' not in [x[1] for x in t]:
+            texts.append((a, m))
+    # chibicc on the literal-safe ones and on the unsafe-but-valid ones, in one file per 40 arguments
+    good = [(a, m) for a, m in texts if str_lit_valid(m)]
+    for i in range(0, len(good), 40):
+        part = good[i:i + 40]
+        src = '#define str(s) # s\n' + ''.join(f'str({a})\n' for a, _ in part)
+        d = os.path.join(ctx.scratch, 'c09', 'strz%d' % i)
+        os.makedirs(d, exist_ok=True)
+        open(os.path.join(d, 't.c'), 'w').write(src)
+        C = run_chibicc(ctx, d)
+        shutil.rmtree(d, ignore_errors=True)
+        got = flat(C)
+        want = [m for _, m in part]
+        if got != want:
+            k = next((j for j in range(len(want)) if got is None or j >= len(got) or got[j] != want[j]), 0)
+            corr.disagreements.append({'kind': 'model stringize vs chibicc -E', 'what': f'str({part[k][0]}): model {want[k]}, chibicc '
+                                       + (got[k] if got is not None and k < len(got) else str(C[:2])), 'input': '#define str(s) # s\nstr(' + part[k][0] + ')\n'})
+            return
 
 def macro_c(ctx, corr):
     """/repo/test/macro.c through chibicc -E and gcc -E -P: compare the token streams line group by line group
@@ -1063,7 +1283,13 @@ def correspond(ctx, corr):
                  'macros with every replacement list of <= 2 tokens over {x f g ( ) a} (unbalanced parentheses: arguments and `)` taken '
                  'from the text behind the expansion, i.e. the hide-set intersection rule) x 9 inputs that keep offering `(..)` groups '
                  '(sampled in the quick tier, exhaustive in the thorough tier), and ## forming macro names; (5) seeded random definition '
-                 'sets x invocations.  Each case runs through chibicc -E, the real preprocess2 in-process (hide set of every output '
+                 'sets x invocations; (6) the # operator: every string literal (prefixes none/u8/u/U/L x 9 bodies with `\\\\`, `\\"`, `\\n`, '
+                 'quote characters) and character constant (prefixes none/u/U/L x 7 bodies) between {nothing, `\\`, `\\ `, a, `a `} and '
+                 '{nothing, `\\`, ` \\`, n, ` n`, `\\n`, ` \\ n`} stringized directly (sampled in the quick tier, all 2,555 in the thorough '
+                 'tier), runs of bare backslashes, and random arguments of 1-6 tokens mixing those literals, bare `\\`, pp-numbers, '
+                 'punctuators, parentheses, comments and tabs as white space, through str / xstr (pre-expanded) / #__VA_ARGS__ with '
+                 'commas / a two-parameter macro that stringizes and copies; (7) C11 6.10.3.5 EXAMPLE 3, 4, 7 against the results '
+                 'printed in the standard.  Each case runs through chibicc -E, the real preprocess2 in-process (hide set of every output '
                  'token), the Lean model, gcc -E -P and the Lean specification.  '
                  'non-trivial = a macro is defined and the case involves #, ##, a variadic, an invocation spanning lines, or a macro name '
                  'left unexpanded in the output (self-reference / function-like name without parenthesis); distinct = by source text.')
@@ -1072,10 +1298,12 @@ def correspond(ctx, corr):
     tagged += [('grid', t) for t in gen_operand_grid(ctx.thorough)]
     tagged += [('recursion', t) for t in gen_recursion_shapes(rng, ctx.thorough)]
     tagged += [('fnshape', t) for t in gen_fn_shapes(rng, ctx.thorough)]
+    tagged += [('strzgrid', t) for t in gen_strz_grid(rng, ctx.thorough)]
+    tagged += [('strz', t) for t in gen_strz_random(rng, 400 if not ctx.thorough else 8000)]
     nrand = 1500 if not ctx.thorough else 30000
     tagged += [('random', gen_random_case(rng)) for _ in range(nrand)]
     # the known finding's witness is replayed on every run
-    for wit, fid in ((WITNESS_PM, KNOWN_ID), (WITNESS_BS, KNOWN_BS)):
+    for wit, fid in ((WITNESS_PM, KNOWN_ID),):
         w = run_all(ctx, [wit])[0]
         corr.evaluations += 1
         if oracle_verdict(w) != 'agree':
@@ -1086,6 +1314,10 @@ def correspond(ctx, corr):
     smoke = [('smoke', '#define z z\nz\n'), ('smoke', '#define T U\n#define U T\nT U\n'), ('smoke', '#define f(x) x f(x)\nf(1)\n')]
     process(ctx, corr, smoke)
     if [v for v in corr.violations if not v.get('known_id')]:
+        return
+    std_examples(ctx, corr)
+    strz_direct(ctx, corr)
+    if corr.disagreements:
         return
     chunk = 250
     for i in range(0, len(tagged), chunk):
@@ -1101,10 +1333,17 @@ def correspond(ctx, corr):
                                 'input': 'test/macro.c', 'expected': b, 'got': a})
 
 def search(ctx, broken, corr):
-    """a proof or the tie broke and the standard run saw no violation: more random inputs, gcc + specification as oracle"""
+    """a proof, a translator pin or the tie broke and the standard run saw no violation: first the deterministic part of the
+    standard run again (corpus, battery, the standard's examples, the operand grid, the # grid), then more random inputs;
+    gcc + specification as oracle"""
     rng = ctx.rng
-    for rnd in range(6):
-        tagged = [('search', gen_random_case(rng)) for _ in range(2500)]
+    first = corpus_cases() + [('search', t) for t in BATTERY] + [('search', src) for _, src, _ in STD_EXAMPLES]
+    first += [('search', t) for t in gen_operand_grid(False)] + [('search', t) for t in gen_strz_grid(rng, False)]
+    for rnd in range(7):
+        if rnd == 0:
+            tagged = first
+        else:
+            tagged = [('search', gen_random_case(rng)) for _ in range(2200)] + [('search', t) for t in gen_strz_random(rng, 300)]
         c2 = Corr()
         process(ctx, c2, tagged)
         real = [v for v in c2.violations if not v.get('known_id')]
@@ -1149,14 +1388,17 @@ MANIFEST = {
                   'as `fuelBound` would; for object-like definition sets the sharper '
                   'singly-exponential bound `bound defs input` (C09_terminates_partial); __COUNTER__ yields c, c+1, ... (C09_counter); '
                   'subst produces exactly the spellings of the phase-structured C11 6.10.3.1-3 specification (with placemarkers) whenever '
-                  'that specification defines them, outside the two known-finding regions and without GNU/C2x extensions '
-                  '(C09_subst_spec_partial); and the stringized text of `#` is the standard\'s if and only if no token of the argument has a '
-                  '`\\` or `"` outside a literal (C09_stringize_exact: the region of the second known finding is exact at the `#` operator).  '
-                  'The full substitution statement is refuted by kernel-checked witnesses (Findings/C09.lean: t(,,) '
-                  'and str(: @\\n)).  On every run the model is tied to the real chibicc -E (spellings, line structure, spacing, diagnostic '
+                  'that specification defines them, outside the region of the one known finding (placemarkers) and without GNU/C2x '
+                  'extensions, for arbitrary stringized arguments (C09_subst_spec_partial); the token `#` produces is the one C11 6.10.3.2p2 '
+                  'prescribes for EVERY argument - `\\` and `"` inside and outside string literals and character constants '
+                  '(C09_stringize_spec, after the repair of C09-stringize-backslash-outside-literal in /repo; the formula before the repair '
+                  'is kept in Findings/C09.lean as a repaired witness); and the buffer that stringize() hands to tokenize() is exactly one '
+                  'string literal whenever every token of the argument is literal-safe (C09_stringize_wellformed: where the model leaves '
+                  'the re-tokenization out, nothing is lost; elsewhere the behaviour is undefined).  '
+                  'The full substitution statement is refuted by a kernel-checked witness (Findings/C09.lean: t(,,)).  On every run the model is tied to the real chibicc -E (spellings, line structure, spacing, diagnostic '
                   'kind) and to the real preprocess2 run in-process (hide set of every output token), and chibicc is compared with gcc -E -P '
-                  'and the Lean specification, on ~4,000 (quick) generated inputs.',
-    'level_note': 'Partial: C09_subst_spec only outside NoPlacemarkerChain / StringizeLiteralSafe (known findings) and without `, ## '
+                  'and the Lean specification, on ~4,800 (quick) generated inputs, and with the results printed in C11 6.10.3.5 EXAMPLE 3, 4, 7.',
+    'level_note': 'Partial: C09_subst_spec only outside NoPlacemarkerChain (known finding C09-placemarker) and without `, ## '
                   '__VA_ARGS__`, `__VA_OPT__(`, `## ##`, `## #`, and only in the direction "specification defines it => subst produces it"; '
                   'C09_terminates and C09_blue on text without directive lines (the table is fixed while the text is scanned; `fuelBound` is a '
                   'tower in the number of table entries, far from tight).  Trusted: Lean kernel '
